@@ -321,7 +321,9 @@ type eagrBFS struct {
 	lockstep bool
 	budget   eagrDevs
 	maxDevs  int
-	byzAccts []int // adversary accounts
+	byzAccts []int  // adversary accounts
+	byzNodes []int  // nodes the adversary may send to (nil: all)
+	byzSteps []step // steps the adversary votes in (nil: soft, cert, next)
 	// onStep is called for every executed transition (pre-state, event, post-state, observations).
 	// path() returns the event list from the initial state up to and including this event.
 	onStep func(pre *eagrSys, e eagrEv, post *eagrSys, out *eagrOut, path func() []eagrEv)
@@ -402,12 +404,25 @@ func (b *eagrBFS) enabled(s *eagrSys) []eagrEv {
 				vals = append(vals, eagrPV(pv))
 			}
 			sort.Strings(vals)
+			steps := b.byzSteps
+			if steps == nil {
+				steps = []step{soft, cert, next}
+			}
 			for j, n := range s.nodes {
 				if n.passive {
 					continue
 				}
+				if b.byzNodes != nil {
+					ok := false
+					for _, x := range b.byzNodes {
+						ok = ok || x == j
+					}
+					if !ok {
+						continue
+					}
+				}
 				for _, acct := range b.byzAccts {
-					for _, st := range []step{soft, cert, next} {
+					for _, st := range steps {
 						vs := vals
 						if st == next {
 							vs = append(append([]string(nil), vals...), "bot")
@@ -598,7 +613,10 @@ func (b *eagrBFS) run(r *ve.Run) eagrBFSResult {
 	for ; len(frontier) > 0 && len(frontier) < switchAt && !stop.Load(); depth++ {
 		res.layerSizes = append(res.layerSizes, len(frontier))
 		if b.maxDepth > 0 && depth >= b.maxDepth {
-			capped(fmt.Sprintf("depth cap %d reached with %d frontier states", b.maxDepth, len(frontier)))
+			// the declared bound of a breadth-first configuration: everything up to this depth was
+			// explored, which is what the configuration claims
+			res.capReason = fmt.Sprintf("(declared bound: complete up to %d events; %d states at the bound not expanded)", b.maxDepth, len(frontier))
+			frontier = nil
 			break
 		}
 		next := make([][]eagrBFSState, len(frontier))
@@ -939,7 +957,7 @@ func (b *eagrBFS) describe() string {
 		}
 		sb.WriteString(")")
 	} else {
-		fmt.Fprintf(&sb, "; full asynchronous reachability (any delivery order, never-delivered = lost, any-time timeouts, crashes<=%d), state cap %d", b.maxCrashes, b.maxStates)
+		fmt.Fprintf(&sb, "; full asynchronous reachability (any delivery order, never-delivered = lost, any-time timeouts, crashes<=%d), complete up to %d events (breadth-first)", b.maxCrashes, b.maxDepth)
 	}
 	return sb.String()
 }
@@ -1058,8 +1076,9 @@ func eagrRunCheck(t *testing.T, c *eagrCheck) {
 	}
 }
 
-// eagrSafetyConfigs returns the configurations explored by the safety checks (C01, C03). scale 0 =
-// reduced (C07's differential costs a multiple per transition), 1 = quick, 2 = thorough.
+// eagrSafetyConfigs returns the configurations explored by the safety checks (C01, C03) and, at a
+// reduced scale, by C07 (whose differential costs a multiple per transition).
+// scale 0 = reduced, 1 = quick, 2 = thorough.
 func eagrSafetyConfigs(scale int) []*eagrBFS {
 	p1 := []bool{true, false, false}
 	cl := []bool{false, false, true}
@@ -1071,10 +1090,19 @@ func eagrSafetyConfigs(scale int) []*eagrBFS {
 		eagrHonest3("sync-3prop", nil, nil, 1, 1).lock(eagrBudget(1+k, 1+k, 0, 0, 0, 0, 0), int(1+k), cap),
 		eagrHonest3("sync-3prop-faults", nil, nil, 1, 1).lock(eagrBudget(2, 1, 1, 1, 0, 1, 1).with(eagrDevReorder, 1), int(1+k), cap),
 		eagrHonest3("sync-3prop-2rounds", nil, nil, 2, 1).lock(eagrBudget(2, 2, 0, 1, 0, 0, 0), int(1+k), cap),
-		eagrByz4("byz-3of4", nil, 1, 1).lock(eagrBudget(2, 1, 0, 0, 2, 0, 0), int(1+k), cap),
 	}
+	if scale == 0 {
+		// equivocation records on one node, cheaply: adversary votes (soft / next) to node 0 only
+		eq := eagrByz4("byz-3of4-equivocate-n0", p1, 1, 1).lock(eagrBudget(0, 0, 0, 0, 2, 0, 0), 2, cap)
+		eq.byzNodes, eq.byzSteps = []int{0}, []step{soft, next}
+		cfgs = append(cfgs, eq)
+	} else {
+		cfgs = append(cfgs, eagrByz4("byz-3of4", nil, 1, 1).lock(eagrBudget(2, 1, 0, 0, 2, 0, 0), int(1+k), cap))
+	}
+	// full asynchronous reachability, complete up to a depth (pure breadth-first: deterministic)
 	async := eagrHonest3("async-1prop", p1, nil, 1, 1)
 	async.maxCrashes = 1
-	async.maxStates = []int64{5000, 30000, 1000000}[scale]
+	async.switchAt = 1 << 30
+	async.maxDepth = []int{4, 6, 7}[scale]
 	return append(cfgs, async)
 }
